@@ -209,6 +209,16 @@ func (g *gen) field(k string, depth int) gfield {
 	if depth <= 0 {
 		kindMax = 40
 	}
+	if depth > 0 && r.Chance(4) {
+		// an error whose ErrorMarshalFunc answer is of a random class, at a random call site
+		ecs := g.errClasses(depth)
+		for {
+			fs := errEntries(k, ecs[r.Intn(len(ecs))])
+			if f := fs[r.Intn(len(fs))]; f.ev != nil {
+				return f
+			}
+		}
+	}
 	switch kind := r.Intn(kindMax); kind {
 	case 0, 1:
 		s := g.str()
@@ -726,6 +736,232 @@ func (w *capture) Write(p []byte) (int, error) {
 
 var levelNames = map[zerolog.Level]string{zerolog.TraceLevel: "trace", zerolog.DebugLevel: "debug", zerolog.InfoLevel: "info", zerolog.WarnLevel: "warn", zerolog.ErrorLevel: "error"}
 
+// ---------------------------------------------------------------- errors under a custom ErrorMarshalFunc
+// ErrorMarshalFunc is a documented customisation point; what it answers decides which arm of the
+// error switches (Event/Context AnErr, Err, Errs, Array.Err, Fields error and []error values) runs.
+// mErr carries the answer with it; for every other error the installed function is the identity
+// (the default).
+type mErr struct {
+	res interface{}
+	txt string
+}
+
+func (e mErr) Error() string { return e.txt }
+
+type ptrErr struct{}
+
+func (*ptrErr) Error() string { return "ptrErr" }
+
+type plainErr struct{ s string }
+
+func (e plainErr) Error() string { return e.s }
+
+func c09ErrorMarshal(err error) interface{} {
+	if m, ok := err.(mErr); ok {
+		return m.res
+	}
+	return err
+}
+
+// errClass: one kind of answer of ErrorMarshalFunc and what each call site documents for it
+type errClass struct {
+	name    string
+	err     error
+	valPos  val  // Fields error value, []error element, Array.Err
+	evErrs  val  // element of Event.Errs
+	ctxErrs val  // element of Context.Errs
+	field   *val // AnErr / Err: nil = no field is added
+}
+
+func (g *gen) errClasses(depth int) []errClass {
+	mk := func(name string, res interface{}, v val, field bool) errClass {
+		c := errClass{name: name, err: mErr{res, "unused " + name}, valPos: v, evErrs: v, ctxErrs: v}
+		if field {
+			vv := v
+			c.field = &vv
+		}
+		return c
+	}
+	s1, s2 := g.str(), g.str()
+	sub := g.fields(g.r.Intn(3), depth-1)
+	cs := []errClass{
+		mk("nil", nil, pIface(nil), false),
+		mk("typed-nil-error", (*ptrErr)(nil), pNil(), false),
+		mk("error", plainErr{s1}, pString(s1), true),
+		mk("string", s2, pString(s2), true),
+		mk("object", objM{sub}, dictVal(flatten(sub)), true),
+		mk("int", 42, pIface(42), true),
+		mk("struct", struct{ Z int }{3}, pIface(struct{ Z int }{3}), true),
+		mk("unmarshalable", math.Inf(1), pIface(math.Inf(1)), true),
+	}
+	cs[1].ctxErrs = pIface(nil) // Context.Errs sends a typed nil through Interface(nil), Event.Errs through Array.Err
+	return cs
+}
+
+// errEntries: every call site that consults ErrorMarshalFunc, as one generated field with key k
+func errEntries(k string, ec errClass) []gfield {
+	err := ec.err
+	var fieldOut func(key string) []kv = func(key string) []kv {
+		if ec.field == nil {
+			return nil
+		}
+		return []kv{{key, *ec.field}}
+	}
+	other := errors.New("plain")
+	fs := []gfield{
+		{"Err[" + ec.name + "]", func(e *zerolog.Event) *zerolog.Event { return e.Err(err) }, func(c zerolog.Context) zerolog.Context { return c.Err(err) }, nil, fieldOut("error")},
+		{"AnErr[" + ec.name + "]", func(e *zerolog.Event) *zerolog.Event { return e.AnErr(k, err) }, func(c zerolog.Context) zerolog.Context { return c.AnErr(k, err) }, nil, fieldOut(k)},
+		{"Event.Errs[" + ec.name + "]", func(e *zerolog.Event) *zerolog.Event { return e.Errs(k, []error{other, err, err}) }, nil, nil,
+			[]kv{{k, arrVal([]val{pString("plain"), ec.evErrs, ec.evErrs})}}},
+		{"Context.Errs[" + ec.name + "]", nil, func(c zerolog.Context) zerolog.Context { return c.Errs(k, []error{err, other, err}) }, nil,
+			[]kv{{k, arrVal([]val{ec.ctxErrs, pString("plain"), ec.ctxErrs})}}},
+		{"Fields(map)[" + ec.name + "]", func(e *zerolog.Event) *zerolog.Event { return e.Fields(map[string]interface{}{k: err}) },
+			func(c zerolog.Context) zerolog.Context { return c.Fields(map[string]interface{}{k: err}) }, nil, []kv{{k, ec.valPos}}},
+		{"Fields(slice)[" + ec.name + "]", func(e *zerolog.Event) *zerolog.Event { return e.Fields([]interface{}{k, err, 7, "skipped: key is not a string", k + "2", err}) },
+			func(c zerolog.Context) zerolog.Context { return c.Fields([]interface{}{k, err, 7, "skipped: key is not a string", k + "2", err}) }, nil,
+			[]kv{{k, ec.valPos}, {k + "2", ec.valPos}}},
+		{"Fields([]error)[" + ec.name + "]", func(e *zerolog.Event) *zerolog.Event { return e.Fields([]interface{}{k, []error{err, other, err}}) },
+			func(c zerolog.Context) zerolog.Context { return c.Fields([]interface{}{k, []error{err, other, err}}) }, nil,
+			[]kv{{k, arrVal([]val{ec.valPos, pString("plain"), ec.valPos})}}},
+		{"Array(Arr.Err)[" + ec.name + "]", func(e *zerolog.Event) *zerolog.Event { return e.Array(k, zerolog.Arr().Err(err).Int(1).Err(err)) },
+			func(c zerolog.Context) zerolog.Context { return c.Array(k, zerolog.Arr().Err(err).Int(1).Err(err)) }, nil,
+			[]kv{{k, arrVal([]val{ec.valPos, pInt(1), ec.valPos})}}},
+	}
+	return fs
+}
+
+// inDict wraps fields that can be applied to an Event into e.Dict(k, Dict()...)
+func inDict(k string, sub []gfield) gfield {
+	out := flatten(sub)
+	return gfield{"Dict", func(e *zerolog.Event) *zerolog.Event {
+		d := zerolog.Dict()
+		for _, f := range sub {
+			f.ev(d)
+		}
+		return e.Dict(k, d)
+	}, func(c zerolog.Context) zerolog.Context {
+		d := zerolog.Dict()
+		for _, f := range sub {
+			f.ev(d)
+		}
+		return c.Dict(k, d)
+	}, nil, []kv{{k, dictVal(out)}}}
+}
+
+type evRun struct {
+	c     *Ctx
+	kinds map[string]int
+	n     int
+}
+
+// runProgram executes one program (context layers, event fields, level, message, finalizer) on the
+// real code, applies the monitors and emits the correspondence case.
+func (er *evRun) runProgram(g *gen, label string, layers [][]gfield, evF []gfield, lvl zerolog.Level, msg string, fin int) {
+	c := er.c
+	i := er.n
+	er.n++
+	zerolog.DurationFieldUnit = g.unit
+	zerolog.DurationFieldInteger = g.useInt
+	now := g.now
+	zerolog.TimestampFunc = func() time.Time { return now }
+
+	w := &capture{}
+	l := zerolog.New(w)
+	var ctxF []gfield
+	for _, fs := range layers {
+		cx := l.With()
+		for _, f := range fs {
+			cx = f.ctx(cx)
+		}
+		l = cx.Logger()
+		ctxF = append(ctxF, fs...)
+	}
+	var e *zerolog.Event
+	var pre []kv
+	if lvl == zerolog.NoLevel {
+		e = l.Log()
+	} else {
+		e = l.WithLevel(lvl)
+		pre = []kv{{"level", pString(levelNames[lvl])}}
+	}
+	for _, f := range evF {
+		e = f.ev(e)
+	}
+	ev := flatten(evF)
+	switch fin {
+	case 0:
+		e.Msg(msg)
+	case 1:
+		if msg == "" {
+			e.Send()
+		} else {
+			e.Msgf("%s", msg)
+		}
+	default:
+		m := msg
+		e.MsgFunc(func() string { return m })
+	}
+	if msg != "" {
+		ev = append(ev, kv{"message", pString(msg)})
+	}
+	ctx := flatten(ctxF)
+	in := map[string]interface{}{"program": i, "context": kinds2(ctxF), "event": kinds2(evF), "level": lvl.String(), "msg": msg}
+	if label != "" {
+		in["directed"] = label
+	}
+	if len(w.bufs) != 1 {
+		c.Violate(Violation{Key: "cbor-event-writes", Monitor: "one-write", Desc: fmt.Sprintf("event produced %d writes", len(w.bufs)), Case: in})
+		return
+	}
+	got := w.bufs[0]
+	obs := fmt.Sprintf("%x", truncB(got, 200))
+	// ---- monitor: independent reference parser
+	var all []kv
+	all = append(all, pre...)
+	all = append(all, ctx...)
+	all = append(all, ev...)
+	want := cborref.MapI(kvsWant(all)...)
+	it, rest, err := cborref.ParseItem(got)
+	switch {
+	case err != nil:
+		c.Violate(Violation{Key: "cbor-event-malformed", Monitor: "rfc8949-reference-parser", Desc: "event is not a well-formed CBOR item: " + err.Error(), Case: in, Observed: obs})
+	case len(rest) != 0:
+		c.Violate(Violation{Key: "cbor-event-trailing", Monitor: "rfc8949-reference-parser", Desc: fmt.Sprintf("event is one item followed by %d more bytes", len(rest)), Case: in, Observed: obs})
+	case it.Kind != cborref.Map || !it.Indef:
+		c.Violate(Violation{Key: "cbor-event-not-indef-map", Monitor: "event-shape", Desc: "event is not an indefinite-length map", Case: in, Observed: it.String()})
+	default:
+		bad := false
+		for j := 0; j < len(it.Items); j += 2 {
+			if it.Items[j].Kind != cborref.Text || it.Items[j].Indef {
+				bad = true
+			}
+		}
+		if bad {
+			c.Violate(Violation{Key: "cbor-event-key-not-text", Monitor: "event-shape", Desc: "a key of the event map is not a definite text string", Case: in, Observed: it.String()})
+		} else if !cborref.Equal(it, want) {
+			c.Violate(Violation{Key: "cbor-event-values", Monitor: "value-carried", Desc: "a generic parser reads other keys/values than were logged: " + firstDiff(it, want), Case: in, Observed: trunc(it.String(), 600), Expected: trunc(want.String(), 600)})
+		}
+	}
+	// a stream of two copies parses as two items (self-delimiting)
+	if items, err := cborref.ParseStream(append(append([]byte{}, got...), got...)); err != nil || len(items) != 2 {
+		if err == nil {
+			c.Violate(Violation{Key: "cbor-event-not-self-delimiting", Monitor: "stream", Desc: "two events back to back do not parse as two items", Case: in})
+		}
+	}
+	term := fmt.Sprintf("((%s, (%s, %s, %s)), %s)", g.tb.coq(), kvsCoq(pre), kvsCoq(ctx), kvsCoq(ev), cbs(got))
+	c.AddCase(term, map[string]interface{}{"program": in, "got": fmt.Sprintf("%x", truncB(got, 4096))})
+	c.Count(term, len(all) > 1)
+	c.Hist("event_fields", fmt.Sprintf("%d", len(all)/4*4))
+	c.Hist("event_bytes", lenBucket(len(got)))
+	for _, f := range append(append([]gfield{}, ctxF...), evF...) {
+		er.kinds[f.kind]++
+		c.Hist("field_kind", f.kind)
+	}
+	if i < 3 {
+		c.Sample(map[string]interface{}{"program": in, "bytes": obs, "parsed": trunc(it.String(), 400)})
+	}
+}
+
 func runEvents(c *Ctx) {
 	nprog := 2000
 	if c.Thorough() {
@@ -735,27 +971,53 @@ func runEvents(c *Ctx) {
 		zerolog.DurationFieldUnit = time.Millisecond
 		zerolog.DurationFieldInteger = false
 		zerolog.TimestampFunc = time.Now
+		zerolog.ErrorMarshalFunc = func(err error) interface{} { return err }
 	}()
 	zerolog.CallerMarshalFunc = func(pc uintptr, file string, line int) string { return "F:1" }
 	zerolog.SetGlobalLevel(zerolog.TraceLevel)
-	kinds := map[string]int{}
+	zerolog.ErrorMarshalFunc = c09ErrorMarshal
+	er := &evRun{c: c, kinds: map[string]int{}}
+
+	// ---- directed: every answer class of ErrorMarshalFunc at every call site that consults it, as an
+	// event field, a context field and inside a Dict, always between two ordinary fields (a key left
+	// without its value shifts what follows)
+	{
+		r := c.R.Fork()
+		g := &gen{r: r, tb: newTables(), unit: time.Millisecond, now: time.Unix(1700000000, 0)}
+		strF := func(k, s string) gfield {
+			return gfield{"Str", func(e *zerolog.Event) *zerolog.Event { return e.Str(k, s) }, func(c zerolog.Context) zerolog.Context { return c.Str(k, s) }, nil, []kv{{k, pString(s)}}}
+		}
+		intF := func(k string, v int64) gfield {
+			return gfield{"Int64", func(e *zerolog.Event) *zerolog.Event { return e.Int64(k, v) }, func(c zerolog.Context) zerolog.Context { return c.Int64(k, v) }, nil, []kv{{k, pInt(v)}}}
+		}
+		directed := 0
+		for _, ec := range g.errClasses(2) {
+			for _, f := range errEntries("e", ec) {
+				pre, post := strF("pre", "x"), intF("post", 7)
+				if f.ev != nil {
+					er.runProgram(g, "event field "+f.kind, nil, []gfield{pre, f, post}, zerolog.InfoLevel, "m", directed%3)
+					er.runProgram(g, "dict field "+f.kind, nil, []gfield{pre, inDict("d", []gfield{pre, f, post}), post}, zerolog.NoLevel, "", directed%3)
+					directed += 2
+				}
+				if f.ctx != nil {
+					er.runProgram(g, "context field "+f.kind, [][]gfield{{pre, f}, {post}}, []gfield{strF("s", "y")}, zerolog.WarnLevel, "m", directed%3)
+					directed++
+				}
+			}
+		}
+		c.Res.ExtraCoverage["directed_error_marshal_programs"] = directed
+	}
+
 	for i := 0; i < nprog; i++ {
 		r := c.R.Fork()
 		g := &gen{r: r, tb: newTables()}
 		g.unit = []time.Duration{time.Millisecond, time.Millisecond, time.Second, time.Nanosecond, time.Microsecond, time.Minute}[r.Intn(6)]
 		g.useInt = r.Chance(40)
-		zerolog.DurationFieldUnit = g.unit
-		zerolog.DurationFieldInteger = g.useInt
 		g.now = time.Unix(1700000000+int64(r.Intn(1000)), int64(r.Intn(2))*int64(r.Intn(1000000000)))
-		now := g.now
-		zerolog.TimestampFunc = func() time.Time { return now }
-
-		w := &capture{}
-		l := zerolog.New(w)
 		// context: possibly several With() layers
-		var ctxF []gfield
-		layers := r.Intn(3)
-		for li := 0; li < layers; li++ {
+		var layers [][]gfield
+		nl := r.Intn(3)
+		for li := 0; li < nl; li++ {
 			var fs []gfield
 			for len(fs) < r.Intn(4) {
 				f := g.field(g.key(), 2)
@@ -767,103 +1029,18 @@ func runEvents(c *Ctx) {
 				}
 				fs = append(fs, f)
 			}
-			cx := l.With()
-			for _, f := range fs {
-				cx = f.ctx(cx)
-			}
-			l = cx.Logger()
-			ctxF = append(ctxF, fs...)
+			layers = append(layers, fs)
 		}
 		evF := g.fields(r.Intn(7), 3)
 		lvl := []zerolog.Level{zerolog.TraceLevel, zerolog.DebugLevel, zerolog.InfoLevel, zerolog.WarnLevel, zerolog.ErrorLevel, zerolog.NoLevel}[r.Intn(6)]
-		var e *zerolog.Event
-		var pre []kv
-		if lvl == zerolog.NoLevel {
-			e = l.Log()
-		} else {
-			e = l.WithLevel(lvl)
-			pre = []kv{{"level", pString(levelNames[lvl])}}
-		}
-		for _, f := range evF {
-			e = f.ev(e)
-		}
 		msg := ""
 		if r.Chance(70) {
 			msg = g.str()
 		}
-		ev := flatten(evF)
-		switch r.Intn(3) {
-		case 0:
-			e.Msg(msg)
-		case 1:
-			if msg == "" {
-				e.Send()
-			} else {
-				e.Msgf("%s", msg)
-			}
-		default:
-			m := msg
-			e.MsgFunc(func() string { return m })
-		}
-		if msg != "" {
-			ev = append(ev, kv{"message", pString(msg)})
-		}
-		ctx := flatten(ctxF)
-		in := map[string]interface{}{"program": i, "context": kinds2(ctxF), "event": kinds2(evF), "level": lvl.String(), "msg": msg}
-		if len(w.bufs) != 1 {
-			c.Violate(Violation{Key: "cbor-event-writes", Monitor: "one-write", Desc: fmt.Sprintf("event produced %d writes", len(w.bufs)), Case: in})
-			continue
-		}
-		got := w.bufs[0]
-		obs := fmt.Sprintf("%x", truncB(got, 200))
-		// ---- monitor: independent reference parser
-		var all []kv
-		all = append(all, pre...)
-		all = append(all, ctx...)
-		all = append(all, ev...)
-		want := cborref.MapI(kvsWant(all)...)
-		it, rest, err := cborref.ParseItem(got)
-		switch {
-		case err != nil:
-			c.Violate(Violation{Key: "cbor-event-malformed", Monitor: "rfc8949-reference-parser", Desc: "event is not a well-formed CBOR item: " + err.Error(), Case: in, Observed: obs})
-		case len(rest) != 0:
-			c.Violate(Violation{Key: "cbor-event-trailing", Monitor: "rfc8949-reference-parser", Desc: fmt.Sprintf("event is one item followed by %d more bytes", len(rest)), Case: in, Observed: obs})
-		case it.Kind != cborref.Map || !it.Indef:
-			c.Violate(Violation{Key: "cbor-event-not-indef-map", Monitor: "event-shape", Desc: "event is not an indefinite-length map", Case: in, Observed: it.String()})
-		default:
-			bad := false
-			for j := 0; j < len(it.Items); j += 2 {
-				if it.Items[j].Kind != cborref.Text || it.Items[j].Indef {
-					bad = true
-				}
-			}
-			if bad {
-				c.Violate(Violation{Key: "cbor-event-key-not-text", Monitor: "event-shape", Desc: "a key of the event map is not a definite text string", Case: in, Observed: it.String()})
-			} else if !cborref.Equal(it, want) {
-				c.Violate(Violation{Key: "cbor-event-values", Monitor: "value-carried", Desc: "a generic parser reads other keys/values than were logged: " + firstDiff(it, want), Case: in, Observed: trunc(it.String(), 600), Expected: trunc(want.String(), 600)})
-			}
-		}
-		// a stream of two copies parses as two items (self-delimiting)
-		if items, err := cborref.ParseStream(append(append([]byte{}, got...), got...)); err != nil || len(items) != 2 {
-			if err == nil {
-				c.Violate(Violation{Key: "cbor-event-not-self-delimiting", Monitor: "stream", Desc: "two events back to back do not parse as two items", Case: in})
-			}
-		}
-		term := fmt.Sprintf("((%s, (%s, %s, %s)), %s)", g.tb.coq(), kvsCoq(pre), kvsCoq(ctx), kvsCoq(ev), cbs(got))
-		c.AddCase(term, map[string]interface{}{"program": in, "got": fmt.Sprintf("%x", truncB(got, 4096))})
-		c.Count(term, len(all) > 1)
-		c.Hist("event_fields", fmt.Sprintf("%d", len(all)/4*4))
-		c.Hist("event_bytes", lenBucket(len(got)))
-		for _, f := range append(append([]gfield{}, ctxF...), evF...) {
-			kinds[f.kind]++
-			c.Hist("field_kind", f.kind)
-		}
-		if i < 3 {
-			c.Sample(map[string]interface{}{"program": in, "bytes": obs, "parsed": trunc(it.String(), 400)})
-		}
+		er.runProgram(g, "", layers, evF, lvl, msg, r.Intn(3))
 	}
-	c.Res.ExtraCoverage["event_programs"] = nprog
-	c.Res.ExtraCoverage["event_field_kinds"] = len(kinds)
+	c.Res.ExtraCoverage["event_programs"] = er.n
+	c.Res.ExtraCoverage["event_field_kinds"] = len(er.kinds)
 	_ = bytes.Equal
 }
 
